@@ -1,7 +1,1030 @@
-//! C05: not implemented yet.
-use crate::util::Args;
+//! C05: the SMT-LIB writer (patronus::smt::serialize_cmd; serialize_expr is only reachable through it).
+//!
+//! One case per line:
+//!   (case ID (kind expr) (expr E) (syms (S "decl text")..) (text "..") (envs (env (bvenv ..) (arrenv ..))..)
+//!            (indices b..) (solver ("z3" "raw output") ..) (panicloc "..") (classes c..))
+//!   (case ID (kind cmd) (cmd C) (syms ..) (text "..") (panicloc ".."))
+//! `text` of an expr case is what `serialize_cmd(GetValue(e))` writes; the decl texts are what
+//! `serialize_cmd(DeclareConst(sym))` writes for every symbol of the case.
+//! C = (assert E) | (declare S) | (define S E) | (csa E..) | (getvalue E) | (push n) | (pop n) | (setlogic L)
+//!   | (setoption "k" "v") | (setinfo "k" "v") | (exit) | (checksat) | (gua) | (declare-nonsym E)
+use crate::dump::*;
+use crate::exprgen::{lit_value, shift_amount};
+use crate::rng::Rng;
+use crate::sexp::{Sexp, build_expr, read_cases};
+use crate::util::*;
+use baa::{BitVecOps, BitVecValue};
+use patronus::expr::*;
+use patronus::smt::{Logic, SmtCommand, serialize_cmd};
+use std::collections::{BTreeMap, HashSet};
+use std::io::Write;
 
-pub fn run(_args: &Args) {
-    eprintln!("C05: harness module not implemented yet");
-    std::process::exit(2);
+// ------------------------------------------------------------------------------------------ names
+
+pub const SIMPLE_NAMES: &[&str] = &[
+    "x", "y", "s1", "_tmp", "$auto$1", "a.b", "foo@3", "<=", "+", "state_next", "A", "Z9", "~q", "%r", "k?", "n!", "a^b", "a&b", "u/v", "p*q", "e=f", "o-o",
+    "top.cpu.pc", "__n6@0", "BitVec2", "bv", "lets", "pusher",
+];
+pub const QUOTED_NAMES: &[&str] = &[
+    "a b", "1abc", "x[3]", "m:n", "#b01", "a(b)", "x;y", "\"q\"", "", " ", "a\tb", "a\nb", "$auto$async2sync.cc:262:execute$65@20", "mem[0][1]", "a,b", "{x}", "it's",
+    "0", "12", "#x0f", "(", ")", "a#", "`t`",
+];
+pub const NONASCII_NAMES: &[&str] = &["π", "größe", "a→b", "名前"];
+pub const RESERVED_NAMES: &[&str] = &[
+    "let", "push", "pop", "exit", "_", "!", "as", "par", "assert", "forall", "exists", "match", "check-sat", "reset", "echo", "BINARY", "NUMERAL", "define-fun", "get-value",
+    "set-logic",
+];
+pub const THEORY_NAMES: &[&str] = &["true", "false", "not", "and", "bvadd", "select", "store", "Bool", "ite", "=", "=>", "concat", "extract", "BitVec", "Array", "const"];
+pub const UNREPRESENTABLE_NAMES: &[&str] = &["a|b", "a\\b", "|", "\\", "x\u{1}y", "\u{7f}", "|q|"];
+
+pub fn name_class(n: &str) -> &'static str {
+    if UNREPRESENTABLE_NAMES.contains(&n) {
+        "unrepresentable"
+    } else if RESERVED_NAMES.contains(&n) {
+        "reserved"
+    } else if THEORY_NAMES.contains(&n) {
+        "theory"
+    } else if n.starts_with('.') || n.starts_with('@') {
+        "solver-reserved"
+    } else if NONASCII_NAMES.contains(&n) {
+        "nonascii"
+    } else if QUOTED_NAMES.contains(&n) {
+        "needs-quoting"
+    } else if SIMPLE_NAMES.contains(&n) {
+        "simple"
+    } else if n.chars().count() <= 2 && n.chars().all(|c| (c as u32) >= 32 && (c as u32) < 127) {
+        "ascii-char"
+    } else {
+        "derived"
+    }
+}
+
+// ------------------------------------------------------------------------------------------ generator
+
+const WIDE: &[WidthInt] = &[2, 2, 3, 4, 5, 7, 8, 8, 16, 31, 32, 33, 63, 64, 65, 127, 128, 129];
+
+pub struct Gen<'a> {
+    pub ctx: &'a mut Context,
+    pub rng: &'a mut Rng,
+    pub ops: BTreeMap<String, u64>,
+    /// names used so far in this case with their type (a name has one type per case)
+    pub used: Vec<(String, Type)>,
+    pub plain_names: bool,
+    pub div_rem: bool,
+    /// index widths of all arrays (kept small: the reference evaluates array equality over the whole index space)
+    pub max_iw: WidthInt,
+}
+
+impl<'a> Gen<'a> {
+    pub fn new(ctx: &'a mut Context, rng: &'a mut Rng) -> Self {
+        Gen { ctx, rng, ops: BTreeMap::new(), used: vec![], plain_names: false, div_rem: true, max_iw: 6 }
+    }
+    fn count(&mut self, op: &str) {
+        *self.ops.entry(op.to_string()).or_insert(0) += 1;
+    }
+    /// a width: 1 with probability 2/5
+    pub fn width(&mut self) -> WidthInt {
+        if self.rng.chance(2, 5) { 1 } else { *self.rng.pick(WIDE) }
+    }
+    fn index_width(&mut self) -> WidthInt {
+        if self.rng.chance(2, 5) { 1 } else { self.rng.range(2, self.max_iw as u64) as WidthInt }
+    }
+    fn fresh_name(&mut self) -> String {
+        // every printable ASCII character alone and in second position (character classification of the quoting rule)
+        if !self.plain_names && self.rng.chance(1, 8) {
+            let c = (32 + self.rng.below(95)) as u8 as char;
+            if c != '|' && c != '\\' {
+                let cand = if self.rng.chance(1, 2) { format!("{c}") } else { format!("v{c}") };
+                if !self.used.iter().any(|(n, _)| *n == cand) {
+                    return cand;
+                }
+            }
+        }
+        let base: &str = if self.plain_names {
+            *self.rng.pick(SIMPLE_NAMES)
+        } else {
+            match self.rng.below(100) {
+                0..=49 => *self.rng.pick(SIMPLE_NAMES),
+                50..=84 => *self.rng.pick(QUOTED_NAMES),
+                85..=91 => *self.rng.pick(NONASCII_NAMES),
+                92..=94 => *self.rng.pick(RESERVED_NAMES),
+                95..=96 => *self.rng.pick(THEORY_NAMES),
+                _ => *self.rng.pick(UNREPRESENTABLE_NAMES),
+            }
+        };
+        let mut name = base.to_string();
+        let mut k = 0;
+        while self.used.iter().any(|(n, _)| *n == name) {
+            k += 1;
+            name = format!("{base}_{k}");
+        }
+        name
+    }
+    /// a symbol whose name has not been used in this case
+    pub fn fresh_symbol(&mut self, tpe: Type) -> ExprRef {
+        let name = self.fresh_name();
+        self.used.push((name.clone(), tpe));
+        match tpe {
+            Type::BV(w) => self.ctx.bv_symbol(&name, w),
+            Type::Array(a) => self.ctx.array_symbol(&name, a.index_width, a.data_width),
+        }
+    }
+    pub fn symbol(&mut self, tpe: Type) -> ExprRef {
+        let same: Vec<String> = self.used.iter().filter(|(_, t)| *t == tpe).map(|(n, _)| n.clone()).collect();
+        let name = if !same.is_empty() && self.rng.chance(1, 2) {
+            self.rng.pick(&same).clone()
+        } else {
+            let n = self.fresh_name();
+            self.used.push((n.clone(), tpe));
+            n
+        };
+        match tpe {
+            Type::BV(w) => self.ctx.bv_symbol(&name, w),
+            Type::Array(a) => self.ctx.array_symbol(&name, a.index_width, a.data_width),
+        }
+    }
+    pub fn leaf(&mut self, w: WidthInt) -> ExprRef {
+        if self.rng.chance(3, 5) {
+            self.count("sym");
+            self.symbol(Type::BV(w))
+        } else {
+            self.count("lit");
+            let v = lit_value(self.rng, w);
+            self.ctx.bv_lit(&v)
+        }
+    }
+    /// an operator application (never a leaf) of width `w`, operands of depth `d`
+    pub fn bv_op(&mut self, w: WidthInt, d: u32) -> ExprRef {
+        loop {
+            let choice = self.rng.below(34);
+            match choice {
+                0 => {
+                    self.count(if w == 1 { "not:bool" } else { "not" });
+                    let a = self.bv(w, d);
+                    return self.ctx.not(a);
+                }
+                1 => {
+                    self.count(if w == 1 { "neg:1bit" } else { "neg" });
+                    let a = self.bv(w, d);
+                    return self.ctx.negate(a);
+                }
+                2..=4 => {
+                    let a = self.bv(w, d);
+                    let b = self.bv(w, d);
+                    let (n, r) = match choice {
+                        2 => ("and", self.ctx.and(a, b)),
+                        3 => ("or", self.ctx.or(a, b)),
+                        _ => ("xor", self.ctx.xor(a, b)),
+                    };
+                    self.count(&format!("{n}{}", if w == 1 { ":bool" } else { "" }));
+                    return r;
+                }
+                5..=10 => {
+                    let a = self.bv(w, d);
+                    let b = if choice >= 8 && self.rng.chance(1, 2) {
+                        let v = shift_amount(self.rng, w);
+                        self.ctx.bv_lit(&v)
+                    } else {
+                        self.bv(w, d)
+                    };
+                    let (n, r) = match choice {
+                        5 => ("add", self.ctx.add(a, b)),
+                        6 => ("sub", self.ctx.sub(a, b)),
+                        7 => ("mul", self.ctx.mul(a, b)),
+                        8 => ("shl", self.ctx.shift_left(a, b)),
+                        9 => ("lshr", self.ctx.shift_right(a, b)),
+                        _ => ("ashr", self.ctx.arithmetic_shift_right(a, b)),
+                    };
+                    self.count(&format!("{n}{}", if w == 1 { ":1bit" } else { "" }));
+                    return r;
+                }
+                11..=13 => {
+                    if !self.div_rem {
+                        continue;
+                    }
+                    let a = self.bv(w, d);
+                    // make zero divisors likely
+                    let b = if self.rng.chance(1, 4) { self.ctx.zero(w) } else { self.bv(w, d) };
+                    let (n, r) = match self.rng.below(5) {
+                        0 => ("udiv", self.ctx.div(a, b)),
+                        1 => ("sdiv", self.ctx.signed_div(a, b)),
+                        2 => ("urem", self.ctx.remainder(a, b)),
+                        3 => ("srem", self.ctx.signed_remainder(a, b)),
+                        _ => ("smod", self.ctx.signed_mod(a, b)),
+                    };
+                    self.count(&format!("{n}{}", if w == 1 { ":1bit" } else { "" }));
+                    return r;
+                }
+                14 | 15 => {
+                    if w < 2 {
+                        continue;
+                    }
+                    let wa = if self.rng.chance(1, 3) { 1 } else if self.rng.chance(1, 2) { w - 1 } else { self.rng.range(1, w as u64 - 1) as WidthInt };
+                    self.count(&format!("concat{}{}", if wa == 1 { ":hi1" } else { "" }, if w - wa == 1 { ":lo1" } else { "" }));
+                    let a = self.bv(wa, d);
+                    let b = self.bv(w - wa, d);
+                    return self.ctx.concat(a, b);
+                }
+                16 | 17 => {
+                    let src_w = if self.rng.chance(1, 2) { w + 1 + self.rng.below(8) as WidthInt } else { w + *self.rng.pick(WIDE) };
+                    let lo = match self.rng.below(3) {
+                        0 => 0,
+                        1 => src_w - w,
+                        _ => self.rng.below((src_w - w) as u64 + 1) as WidthInt,
+                    };
+                    self.count(if w == 1 { "slice:1bit" } else { "slice" });
+                    let a = self.bv(src_w, d);
+                    return self.ctx.slice(a, lo + w - 1, lo);
+                }
+                18 | 19 => {
+                    if w < 2 {
+                        continue;
+                    }
+                    let by = if self.rng.chance(2, 5) { w - 1 } else { self.rng.range(1, w as u64 - 1) as WidthInt };
+                    let a = self.bv(w - by, d);
+                    return if choice == 18 {
+                        self.count(if w - by == 1 { "zext:bool" } else { "zext" });
+                        self.ctx.zero_extend(a, by)
+                    } else {
+                        self.count(if w - by == 1 { "sext:1bit" } else { "sext" });
+                        self.ctx.sign_extend(a, by)
+                    };
+                }
+                20 | 21 => {
+                    self.count(if w == 1 { "ite:bool" } else { "ite" });
+                    let c = self.bv(1, d);
+                    let t = self.bv(w, d);
+                    let f = self.bv(w, d);
+                    return self.ctx.ite(c, t, f);
+                }
+                22 | 23 => {
+                    let iw = self.index_width();
+                    self.count(&format!("read{}{}", if iw == 1 { ":ibool" } else { "" }, if w == 1 { ":dbool" } else { "" }));
+                    let arr = self.array(iw, w, d);
+                    let idx = self.bv(iw, d);
+                    return self.ctx.array_read(arr, idx);
+                }
+                24..=29 => {
+                    if w != 1 {
+                        continue;
+                    }
+                    let ow = self.width();
+                    let a = self.bv(ow, d);
+                    let b = if self.rng.chance(1, 6) { a } else { self.bv(ow, d) };
+                    let (n, r) = match choice {
+                        24 | 29 => ("eq", self.ctx.equal(a, b)),
+                        25 => ("ugt", self.ctx.greater(a, b)),
+                        26 => ("uge", self.ctx.greater_or_equal(a, b)),
+                        27 => ("sgt", self.ctx.greater_signed(a, b)),
+                        _ => ("sge", self.ctx.greater_or_equal_signed(a, b)),
+                    };
+                    self.count(&format!("{n}{}", if ow == 1 { ":1bit" } else { "" }));
+                    return r;
+                }
+                30 | 31 => {
+                    if w != 1 {
+                        continue;
+                    }
+                    self.count("implies");
+                    let a = self.bv(1, d);
+                    let b = self.bv(1, d);
+                    return self.ctx.implies(a, b);
+                }
+                _ => {
+                    if w != 1 {
+                        continue;
+                    }
+                    let iw = if self.rng.chance(1, 2) { 1 } else { self.rng.range(2, 3) as WidthInt };
+                    let dw = if self.rng.chance(2, 5) { 1 } else { *self.rng.pick(&[2, 3, 8, 65]) };
+                    self.count(&format!("aeq{}{}", if iw == 1 { ":ibool" } else { "" }, if dw == 1 { ":dbool" } else { "" }));
+                    let a = self.array(iw, dw, d);
+                    let b = if self.rng.chance(1, 5) { a } else { self.array(iw, dw, d) };
+                    return self.ctx.equal(a, b);
+                }
+            }
+        }
+    }
+    pub fn bv(&mut self, w: WidthInt, depth: u32) -> ExprRef {
+        if depth == 0 || self.rng.chance(1, 8) {
+            return self.leaf(w);
+        }
+        self.bv_op(w, depth - 1)
+    }
+    pub fn array(&mut self, iw: WidthInt, dw: WidthInt, depth: u32) -> ExprRef {
+        let tag = format!("{}{}", if iw == 1 { ":ibool" } else { "" }, if dw == 1 { ":dbool" } else { "" });
+        if depth == 0 || self.rng.chance(1, 4) {
+            return if self.rng.chance(1, 2) {
+                self.count(&format!("asym{tag}"));
+                self.symbol(Type::Array(ArrayType { index_width: iw, data_width: dw }))
+            } else {
+                self.count(&format!("aconst{tag}"));
+                let e = self.leaf(dw);
+                self.ctx.array_const(e, iw)
+            };
+        }
+        let d = depth - 1;
+        match self.rng.below(6) {
+            0 => {
+                self.count(&format!("aconst{tag}"));
+                let e = self.bv(dw, d);
+                self.ctx.array_const(e, iw)
+            }
+            1..=3 => {
+                self.count(&format!("store{tag}"));
+                let a = self.array(iw, dw, d);
+                let i = self.bv(iw, d);
+                let v = self.bv(dw, d);
+                self.ctx.array_store(a, i, v)
+            }
+            4 => {
+                self.count(&format!("aite{tag}"));
+                let c = self.bv(1, d);
+                let t = self.array(iw, dw, d);
+                let f = self.array(iw, dw, d);
+                self.ctx.ite(c, t, f)
+            }
+            _ => {
+                self.count(&format!("asym{tag}"));
+                self.symbol(Type::Array(ArrayType { index_width: iw, data_width: dw }))
+            }
+        }
+    }
+    /// a root of any type
+    pub fn root(&mut self, depth: u32) -> ExprRef {
+        if self.rng.chance(1, 5) {
+            let iw = self.index_width();
+            let dw = self.width();
+            self.array(iw, dw, depth)
+        } else {
+            let w = self.width();
+            if depth == 0 { self.leaf(w) } else { self.bv_op(w, depth - 1) }
+        }
+    }
+}
+
+fn op_tag(e: &Expr) -> &'static str {
+    match e {
+        Expr::BVSymbol { .. } => "sym",
+        Expr::BVLiteral(_) => "lit",
+        Expr::BVZeroExt { .. } => "zext",
+        Expr::BVSignExt { .. } => "sext",
+        Expr::BVSlice { .. } => "slice",
+        Expr::BVNot(..) => "not",
+        Expr::BVNegate(..) => "neg",
+        Expr::BVEqual(..) => "eq",
+        Expr::BVImplies(..) => "implies",
+        Expr::BVGreater(..) => "ugt",
+        Expr::BVGreaterSigned(..) => "sgt",
+        Expr::BVGreaterEqual(..) => "uge",
+        Expr::BVGreaterEqualSigned(..) => "sge",
+        Expr::BVConcat(..) => "concat",
+        Expr::BVAnd(..) => "and",
+        Expr::BVOr(..) => "or",
+        Expr::BVXor(..) => "xor",
+        Expr::BVShiftLeft(..) => "shl",
+        Expr::BVArithmeticShiftRight(..) => "ashr",
+        Expr::BVShiftRight(..) => "lshr",
+        Expr::BVAdd(..) => "add",
+        Expr::BVMul(..) => "mul",
+        Expr::BVSignedDiv(..) => "sdiv",
+        Expr::BVUnsignedDiv(..) => "udiv",
+        Expr::BVSignedMod(..) => "smod",
+        Expr::BVSignedRem(..) => "srem",
+        Expr::BVUnsignedRem(..) => "urem",
+        Expr::BVSub(..) => "sub",
+        Expr::BVArrayRead { .. } => "read",
+        Expr::BVIte { .. } => "ite",
+        Expr::ArraySymbol { .. } => "asym",
+        Expr::ArrayConstant { .. } => "aconst",
+        Expr::ArrayEqual(..) => "aeq",
+        Expr::ArrayStore { .. } => "store",
+        Expr::ArrayIte { .. } => "aite",
+    }
+}
+
+/// histogram "operator.position:kind-of-operand" over the distinct nodes of the expression
+pub fn position_hist(ctx: &Context, root: ExprRef, stats: &mut Stats) {
+    for n in crate::exprgen::collect_nodes(ctx, root) {
+        let mut cs = vec![];
+        ctx[n].collect_children(&mut cs);
+        for (k, c) in cs.iter().enumerate() {
+            let kind = match c.get_type(ctx) {
+                Type::BV(1) => "1bit",
+                Type::BV(_) => "wide",
+                Type::Array(_) => "array",
+            };
+            let leaf = match &ctx[*c] {
+                Expr::BVSymbol { .. } | Expr::ArraySymbol { .. } => "sym",
+                Expr::BVLiteral(_) => "lit",
+                _ => "op",
+            };
+            stats.bump("operand", &format!("{}.{}:{}:{}", op_tag(&ctx[n]), k, kind, leaf));
+        }
+    }
+}
+
+/// all symbols of the expression in first-visit order (own walker)
+pub fn symbols_of(ctx: &Context, roots: &[ExprRef]) -> Vec<ExprRef> {
+    let mut seen = HashSet::new();
+    let mut out = vec![];
+    let mut todo: Vec<ExprRef> = roots.iter().rev().copied().collect();
+    while let Some(x) = todo.pop() {
+        if !seen.insert(x) {
+            continue;
+        }
+        if ctx[x].is_symbol() {
+            out.push(x);
+        }
+        let mut cs = vec![];
+        ctx[x].collect_children(&mut cs);
+        for c in cs.into_iter().rev() {
+            todo.push(c);
+        }
+    }
+    out
+}
+
+// ------------------------------------------------------------------------------------------ implementation runner
+
+pub fn write_cmd(ctx: &Context, cmd: &SmtCommand) -> Result<String, String> {
+    guarded(|| {
+        let mut out: Vec<u8> = vec![];
+        serialize_cmd(&mut out, Some(ctx), cmd).expect("io");
+        String::from_utf8_lossy(&out).into_owned()
+    })
+}
+
+pub fn dump_sym_decl(ctx: &Context, s: ExprRef) -> String {
+    let text = match write_cmd(ctx, &SmtCommand::DeclareConst(s)) {
+        Ok(t) => quote(&t),
+        Err(_) => "\"<panic>\"".to_string(),
+    };
+    format!("({} {})", dump_expr(ctx, s), text)
+}
+
+#[derive(Clone)]
+pub struct ArrVal {
+    pub default: BitVecValue,
+    pub entries: Vec<(BitVecValue, BitVecValue)>,
+}
+#[derive(Clone)]
+pub struct Env {
+    pub bvs: Vec<(ExprRef, BitVecValue)>,
+    pub arrs: Vec<(ExprRef, ArrVal)>,
+}
+
+pub fn random_env(ctx: &Context, rng: &mut Rng, syms: &[ExprRef]) -> Env {
+    let mut env = Env { bvs: vec![], arrs: vec![] };
+    for s in syms {
+        match s.get_type(ctx) {
+            Type::BV(w) => env.bvs.push((*s, lit_value(rng, w))),
+            Type::Array(t) => {
+                let default = lit_value(rng, t.data_width);
+                let n = rng.below(4);
+                let entries = (0..n).map(|_| (lit_value(rng, t.index_width), lit_value(rng, t.data_width))).collect();
+                env.arrs.push((*s, ArrVal { default, entries }));
+            }
+        }
+    }
+    env
+}
+
+pub fn dump_env(ctx: &Context, env: &Env) -> String {
+    let mut bvenv = String::new();
+    for (s, v) in env.bvs.iter() {
+        bvenv.push_str(&format!(" ({} {} {})", quote(ctx.get_symbol_name(*s).unwrap()), v.width(), bv_tok(v)));
+    }
+    let mut arrenv = String::new();
+    for (s, a) in env.arrs.iter() {
+        let t = s.get_array_type(ctx).unwrap();
+        let mut txt = format!("{} {} {} {}", quote(ctx.get_symbol_name(*s).unwrap()), t.index_width, t.data_width, bv_tok(&a.default));
+        for (i, v) in a.entries.iter() {
+            txt.push_str(&format!(" ({} {})", bv_tok(i), bv_tok(v)));
+        }
+        arrenv.push_str(&format!(" ({txt})"));
+    }
+    format!("(env (bvenv{bvenv}) (arrenv{arrenv}))")
+}
+
+pub fn parse_env(ctx: &mut Context, e: &Sexp) -> Env {
+    let mut env = Env { bvs: vec![], arrs: vec![] };
+    for b in e.field("bvenv").unwrap_or(&[]) {
+        let l = b.list();
+        let s = ctx.bv_symbol(l[0].atom(), l[1].num() as WidthInt);
+        env.bvs.push((s, l[2].bits()));
+    }
+    for a in e.field("arrenv").unwrap_or(&[]) {
+        let l = a.list();
+        let s = ctx.array_symbol(l[0].atom(), l[1].num() as WidthInt, l[2].num() as WidthInt);
+        let entries = l[4..].iter().map(|p| (p.list()[0].bits(), p.list()[1].bits())).collect();
+        env.arrs.push((s, ArrVal { default: l[3].bits(), entries }));
+    }
+    env
+}
+
+// ------------------------------------------------------------------------------------------ solver cross-check (thorough tier)
+
+pub fn own_quote(n: &str) -> Option<String> {
+    if n.contains('|') || n.contains('\\') || n.chars().any(|c| (c as u32) < 32 && !matches!(c, '\t' | '\n' | '\r') || c as u32 == 127) {
+        None
+    } else {
+        Some(format!("|{n}|"))
+    }
+}
+pub fn own_elem_sort(w: WidthInt) -> String {
+    if w == 1 { "Bool".into() } else { format!("(_ BitVec {w})") }
+}
+pub fn own_elem_value(v: &BitVecValue) -> String {
+    if v.width() == 1 { if v.is_true() { "true".into() } else { "false".into() } } else { format!("#b{}", v.to_bit_str()) }
+}
+
+/// the solver script for one expr case under one assignment; None when a name cannot be written at all
+pub fn solver_script(ctx: &Context, decls: &[String], term: &str, root_ty: Type, env: &Env, indices: &[BitVecValue]) -> Option<String> {
+    let mut s = String::new();
+    for d in decls {
+        s.push_str(d);
+        if !d.ends_with('\n') {
+            s.push('\n');
+        }
+    }
+    for (sym, v) in env.bvs.iter() {
+        let n = own_quote(ctx.get_symbol_name(*sym).unwrap())?;
+        s.push_str(&format!("(assert (= {n} {}))\n", own_elem_value(v)));
+    }
+    for (sym, a) in env.arrs.iter() {
+        let n = own_quote(ctx.get_symbol_name(*sym).unwrap())?;
+        let t = sym.get_array_type(ctx).unwrap();
+        let mut val = format!("((as const (Array {} {})) {})", own_elem_sort(t.index_width), own_elem_sort(t.data_width), own_elem_value(&a.default));
+        for (i, d) in a.entries.iter() {
+            val = format!("(store {val} {} {})", own_elem_value(i), own_elem_value(d));
+        }
+        s.push_str(&format!("(assert (= {n} {val}))\n"));
+    }
+    s.push_str("(check-sat)\n");
+    match root_ty {
+        Type::BV(_) => s.push_str(&format!("(get-value ({term}))\n")),
+        Type::Array(_) => {
+            for i in indices {
+                s.push_str(&format!("(get-value ((select {term} {})))\n", own_elem_value(i)));
+            }
+        }
+    }
+    Some(s)
+}
+
+/// All solver queries of one stream go into one incremental session per solver: each case is wrapped in
+/// `(echo "@@case ID") (push 1) ... (pop 1)`.
+#[derive(Default)]
+pub struct SolverBatch {
+    pub script: String,
+    pub ids: Vec<String>,
+}
+
+impl SolverBatch {
+    pub fn add(&mut self, id: &str, body: &str) {
+        self.script.push_str(&format!("(echo \"@@case {id}@@\")\n(push 1)\n{body}(pop 1)\n"));
+        self.ids.push(id.to_string());
+    }
+    /// per case id: the solver's output between this case's marker and the next
+    pub fn run(&self, name: &str, scratch: &str) -> std::collections::HashMap<String, String> {
+        let mut res = std::collections::HashMap::new();
+        if self.ids.is_empty() {
+            return res;
+        }
+        let path = format!("{scratch}.{name}.smt2");
+        // z3 only knows `(as const ..)` under ALL; under ALL cvc5 also loads arithmetic, whose symbols (+ - * / <= ..) a script
+        // may then not declare: the array/bit-vector logic is the right one for it
+        let header = format!("(set-option :produce-models true)\n(set-logic {})\n", if name == "z3" { "ALL" } else { "QF_ABV" });
+        std::fs::write(&path, format!("{header}{}", self.script)).expect("write solver script");
+        let mut cmd = std::process::Command::new(if name == "z3" { "/usr/bin/z3" } else { "cvc5" });
+        if name == "cvc5" {
+            cmd.arg("--lang=smt2").arg("--incremental");
+        }
+        cmd.arg(&path);
+        let text = match cmd.output() {
+            Ok(o) => {
+                let mut t = String::from_utf8_lossy(&o.stdout).into_owned();
+                t.push_str(&String::from_utf8_lossy(&o.stderr));
+                t
+            }
+            Err(e) => format!("(error \"cannot run solver: {e}\")"),
+        };
+        let mut cur: Option<String> = None;
+        let mut buf = String::new();
+        for l in text.lines() {
+            if l.contains("WARNING conda") {
+                continue;
+            }
+            if let Some(p) = l.find("@@case ") {
+                if let Some(c) = cur.take() {
+                    res.insert(c, std::mem::take(&mut buf));
+                }
+                let rest = &l[p + 7..];
+                let id = rest.split("@@").next().unwrap_or("").to_string();
+                cur = Some(id);
+                buf.clear();
+            } else {
+                buf.push_str(l);
+                buf.push('\n');
+            }
+        }
+        if let Some(c) = cur.take() {
+            res.insert(c, buf);
+        }
+        res
+    }
+}
+
+// ------------------------------------------------------------------------------------------ cases
+
+pub enum CmdCase {
+    Assert(ExprRef),
+    Declare(ExprRef),
+    DeclareNonSym(ExprRef),
+    Define(ExprRef, ExprRef),
+    Csa(Vec<ExprRef>),
+    GetValue(ExprRef),
+    Push(u64),
+    Pop(u64),
+    SetLogic(Logic),
+    SetOption(String, String),
+    SetInfo(String, String),
+    Exit,
+    CheckSat,
+    Gua,
+}
+
+const OPTION_KEYS: &[&str] = &["produce-models", "random-seed", "smt-lib-version", "source", "status", "incremental", "produce-unsat-assumptions", "k_1"];
+const OPTION_VALUES: &[&str] = &["true", "false", "1", "42", "2.6", "sat", "unsat", "a b", "QF_BV", "|x|", "", "patronus", "\"s\""];
+
+pub fn logic_name(l: &Logic) -> &'static str {
+    match l {
+        Logic::All => "ALL",
+        Logic::QfAufbv => "QF_AUFBV",
+        Logic::QfAbv => "QF_ABV",
+        Logic::QfBv => "QF_BV",
+    }
+}
+
+pub fn gen_cmd(g: &mut Gen, stats: &mut Stats) -> CmdCase {
+    let depth = g.rng.below(3) as u32;
+    let k = g.rng.below(20);
+    match k {
+        0..=3 => CmdCase::Assert(g.bv(1, depth + 1)),
+        4..=6 => {
+            let t = if g.rng.chance(1, 3) {
+                Type::Array(ArrayType { index_width: g.index_width(), data_width: g.width() })
+            } else {
+                Type::BV(g.width())
+            };
+            CmdCase::Declare(g.symbol(t))
+        }
+        7..=9 => {
+            if g.rng.chance(1, 4) {
+                let iw = g.index_width();
+                let dw = g.width();
+                let v = g.array(iw, dw, depth);
+                let s = g.fresh_symbol(Type::Array(ArrayType { index_width: iw, data_width: dw }));
+                CmdCase::Define(s, v)
+            } else {
+                let w = g.width();
+                let v = g.bv(w, depth + 1);
+                let s = g.fresh_symbol(Type::BV(w));
+                CmdCase::Define(s, v)
+            }
+        }
+        10..=12 => {
+            let n = g.rng.below(4);
+            let es = (0..n)
+                .map(|_| match g.rng.below(3) {
+                    0 => g.symbol(Type::BV(1)),
+                    1 => {
+                        let s = g.symbol(Type::BV(1));
+                        g.ctx.not(s)
+                    }
+                    _ => g.bv(1, depth + 1),
+                })
+                .collect();
+            CmdCase::Csa(es)
+        }
+        13 | 14 => CmdCase::GetValue(g.root(depth + 1)),
+        15 => {
+            let n = *g.rng.pick(&[0u64, 1, 2, 10, 4294967296, u64::MAX]);
+            if g.rng.chance(1, 2) { CmdCase::Push(n) } else { CmdCase::Pop(n) }
+        }
+        16 => CmdCase::SetLogic(match g.rng.below(4) {
+            0 => Logic::All,
+            1 => Logic::QfAufbv,
+            2 => Logic::QfAbv,
+            _ => Logic::QfBv,
+        }),
+        17 => {
+            let k = g.rng.pick(OPTION_KEYS).to_string();
+            let v = g.rng.pick(OPTION_VALUES).to_string();
+            if g.rng.chance(1, 2) { CmdCase::SetOption(k, v) } else { CmdCase::SetInfo(k, v) }
+        }
+        18 => match g.rng.below(3) {
+            0 => CmdCase::Exit,
+            1 => CmdCase::CheckSat,
+            _ => CmdCase::Gua,
+        },
+        _ => {
+            if g.rng.chance(1, 3) {
+                let w = g.width();
+                CmdCase::DeclareNonSym(g.bv_op(w, 0))
+            } else {
+                CmdCase::Assert(g.bv(1, depth + 1))
+            }
+        }
+    }
+}
+
+pub fn cmd_exprs(c: &CmdCase) -> Vec<ExprRef> {
+    match c {
+        CmdCase::Assert(e) | CmdCase::Declare(e) | CmdCase::DeclareNonSym(e) | CmdCase::GetValue(e) => vec![*e],
+        CmdCase::Define(s, e) => vec![*s, *e],
+        CmdCase::Csa(es) => es.clone(),
+        _ => vec![],
+    }
+}
+
+pub fn cmd_to_impl(c: &CmdCase) -> SmtCommand {
+    match c {
+        CmdCase::Assert(e) => SmtCommand::Assert(*e),
+        CmdCase::Declare(e) | CmdCase::DeclareNonSym(e) => SmtCommand::DeclareConst(*e),
+        CmdCase::Define(s, e) => SmtCommand::DefineConst(*s, *e),
+        CmdCase::Csa(es) => SmtCommand::CheckSatAssuming(es.clone()),
+        CmdCase::GetValue(e) => SmtCommand::GetValue(*e),
+        CmdCase::Push(n) => SmtCommand::Push(*n),
+        CmdCase::Pop(n) => SmtCommand::Pop(*n),
+        CmdCase::SetLogic(l) => SmtCommand::SetLogic(l.clone()),
+        CmdCase::SetOption(k, v) => SmtCommand::SetOption(k.clone(), v.clone()),
+        CmdCase::SetInfo(k, v) => SmtCommand::SetInfo(k.clone(), v.clone()),
+        CmdCase::Exit => SmtCommand::Exit,
+        CmdCase::CheckSat => SmtCommand::CheckSat,
+        CmdCase::Gua => SmtCommand::GetUnsatAssumptions,
+    }
+}
+
+pub fn dump_cmd(ctx: &Context, c: &CmdCase) -> (String, &'static str) {
+    let d = |e: &ExprRef| dump_expr(ctx, *e);
+    match c {
+        CmdCase::Assert(e) => (format!("(assert {})", d(e)), "assert"),
+        CmdCase::Declare(e) => (format!("(declare {})", d(e)), "declare"),
+        CmdCase::DeclareNonSym(e) => (format!("(declare-nonsym {})", d(e)), "declare-nonsym"),
+        CmdCase::Define(s, e) => (format!("(define {} {})", d(s), d(e)), "define"),
+        CmdCase::Csa(es) => (format!("(csa{})", es.iter().map(|e| format!(" {}", d(e))).collect::<String>()), "check-sat-assuming"),
+        CmdCase::GetValue(e) => (format!("(getvalue {})", d(e)), "get-value"),
+        CmdCase::Push(n) => (format!("(push {n})"), "push"),
+        CmdCase::Pop(n) => (format!("(pop {n})"), "pop"),
+        CmdCase::SetLogic(l) => (format!("(setlogic {})", logic_name(l)), "set-logic"),
+        CmdCase::SetOption(k, v) => (format!("(setoption {} {})", quote(k), quote(v)), "set-option"),
+        CmdCase::SetInfo(k, v) => (format!("(setinfo {} {})", quote(k), quote(v)), "set-info"),
+        CmdCase::Exit => ("(exit)".into(), "exit"),
+        CmdCase::CheckSat => ("(checksat)".into(), "check-sat"),
+        CmdCase::Gua => ("(gua)".into(), "get-unsat-assumptions"),
+    }
+}
+
+pub fn parse_cmd(ctx: &mut Context, c: &Sexp) -> CmdCase {
+    let l = c.list();
+    let mut e = |i: usize, ctx: &mut Context| build_expr(ctx, &l[i]);
+    match l[0].atom() {
+        "assert" => CmdCase::Assert(e(1, ctx)),
+        "declare" => CmdCase::Declare(e(1, ctx)),
+        "declare-nonsym" => CmdCase::DeclareNonSym(e(1, ctx)),
+        "define" => {
+            let s = e(1, ctx);
+            let v = e(2, ctx);
+            CmdCase::Define(s, v)
+        }
+        "csa" => CmdCase::Csa((1..l.len()).map(|i| build_expr(ctx, &l[i])).collect()),
+        "getvalue" => CmdCase::GetValue(e(1, ctx)),
+        "push" => CmdCase::Push(l[1].num()),
+        "pop" => CmdCase::Pop(l[1].num()),
+        "setlogic" => CmdCase::SetLogic(match l[1].atom() {
+            "ALL" => Logic::All,
+            "QF_AUFBV" => Logic::QfAufbv,
+            "QF_ABV" => Logic::QfAbv,
+            _ => Logic::QfBv,
+        }),
+        "setoption" => CmdCase::SetOption(l[1].atom().to_string(), l[2].atom().to_string()),
+        "setinfo" => CmdCase::SetInfo(l[1].atom().to_string(), l[2].atom().to_string()),
+        "exit" => CmdCase::Exit,
+        "checksat" => CmdCase::CheckSat,
+        _ => CmdCase::Gua,
+    }
+}
+
+enum Case {
+    Expr { root: ExprRef, envs: Vec<Env> },
+    Cmd(CmdCase),
+}
+
+fn run_case(id: &str, ctx: &Context, case: &Case, stats: &mut Stats, batch: &mut Vec<(String, SolverBatch)>) -> String {
+    match case {
+        Case::Expr { root, envs } => {
+            let syms = symbols_of(ctx, &[*root]);
+            let mut classes: Vec<&'static str> = vec![];
+            for s in syms.iter() {
+                let c = name_class(ctx.get_symbol_name(*s).unwrap());
+                stats.bump("name_class", c);
+                if !classes.contains(&c) {
+                    classes.push(c);
+                }
+            }
+            let root_ty = root.get_type(ctx);
+            match root_ty {
+                Type::BV(w) => stats.bump("root_type", &format!("bv{w}")),
+                Type::Array(a) => stats.bump("root_type", &format!("arr{}x{}", a.index_width, a.data_width)),
+            }
+            stats.bump("tree_size", &format!("{}", (tree_size(ctx, *root, 400) / 10) * 10));
+            position_hist(ctx, *root, stats);
+            let decl_txt: String = syms.iter().map(|s| format!(" {}", dump_sym_decl(ctx, *s))).collect();
+            let (text, panicloc) = match write_cmd(ctx, &SmtCommand::GetValue(*root)) {
+                Ok(t) => (t, String::new()),
+                Err(_) => {
+                    stats.inc("impl_panics");
+                    ("<panic>".to_string(), last_panic_loc())
+                }
+            };
+            // indices at which array-typed results are observed
+            let mut indices: Vec<BitVecValue> = vec![];
+            if let Type::Array(a) = root_ty {
+                if a.index_width <= 6 {
+                    for i in 0..(1u64 << a.index_width) {
+                        indices.push(BitVecValue::from_u64(i, a.index_width));
+                    }
+                } else {
+                    indices.push(BitVecValue::zero(a.index_width));
+                    indices.push(BitVecValue::ones(a.index_width));
+                }
+            }
+            let envs_txt: String = envs.iter().map(|e| format!(" {}", dump_env(ctx, e))).collect();
+            let idx_txt: String = indices.iter().map(|i| format!(" {}", bv_tok(i))).collect();
+            let mut solver_txt = String::new();
+            // only cases whose names SMT-LIB can express (and that are not reserved words) go to the solvers
+            let solver_ok = classes.iter().all(|c| matches!(*c, "simple" | "needs-quoting" | "nonascii" | "derived" | "ascii-char"));
+            if !batch.is_empty() {
+                if solver_ok && !envs.is_empty() && text.starts_with("(get-value (") {
+                    let term = text.trim_end().strip_prefix("(get-value (").unwrap().strip_suffix("))").unwrap_or("");
+                    let decls: Vec<String> = syms.iter().map(|s| write_cmd(ctx, &SmtCommand::DeclareConst(*s)).unwrap_or_default()).collect();
+                    let few: Vec<BitVecValue> = indices.iter().take(4).cloned().collect();
+                    // cvc5 only accepts values as the argument of `(as const ..)` and stops at the first error
+                    let nonlit_aconst = crate::exprgen::collect_nodes(ctx, *root)
+                        .iter()
+                        .any(|n| matches!(&ctx[*n], Expr::ArrayConstant { e, .. } if !matches!(ctx[*e], Expr::BVLiteral(_))));
+                    let has_aeq = crate::exprgen::collect_nodes(ctx, *root).iter().any(|n| matches!(&ctx[*n], Expr::ArrayEqual(..)));
+                    if let Some(script) = solver_script(ctx, &decls, term, root_ty, &envs[0], &few) {
+                        for (name, b) in batch.iter_mut() {
+                            if name == "cvc5" && nonlit_aconst {
+                                stats.inc("cvc5_skipped_nonliteral_const_array");
+                                continue;
+                            }
+                            // z3 4.8.12's model evaluator answers some extensional array equalities with `false` although the
+                            // negation is unsatisfiable (and with quantified terms): its get-value is no evidence there
+                            if name == "z3" && has_aeq {
+                                stats.inc("z3_skipped_array_equality");
+                                continue;
+                            }
+                            b.add(id, &script);
+                        }
+                        solver_txt = format!("@@SOLVER {id}@@");
+                    }
+                } else {
+                    stats.inc("solver_skipped_name_class");
+                }
+            }
+            format!(
+                "(case {id} (kind expr) (expr {}) (syms{decl_txt}) (text {}) (envs{envs_txt}) (indices{idx_txt}) (solver{solver_txt}) (panicloc {}) (classes {}))",
+                dump_expr(ctx, *root),
+                quote(&text),
+                quote(&panicloc),
+                classes.join(" ")
+            )
+        }
+        Case::Cmd(c) => {
+            let exprs = cmd_exprs(c);
+            let syms = symbols_of(ctx, &exprs);
+            // for declare / define the symbol being introduced is not part of the context
+            let intro: Option<ExprRef> = match c {
+                CmdCase::Declare(s) | CmdCase::Define(s, _) => Some(*s),
+                _ => None,
+            };
+            let mut classes: Vec<&'static str> = vec![];
+            for s in syms.iter() {
+                let cl = name_class(ctx.get_symbol_name(*s).unwrap());
+                stats.bump("name_class", cl);
+                if !classes.contains(&cl) {
+                    classes.push(cl);
+                }
+            }
+            let decl_txt: String = syms.iter().filter(|s| Some(**s) != intro).map(|s| format!(" {}", dump_sym_decl(ctx, *s))).collect();
+            let (ctxt, kind) = dump_cmd(ctx, c);
+            stats.bump("cmd_kind", kind);
+            let (text, panicloc) = match write_cmd(ctx, &cmd_to_impl(c)) {
+                Ok(t) => (t, String::new()),
+                Err(_) => {
+                    stats.inc("impl_panics");
+                    ("<panic>".to_string(), last_panic_loc())
+                }
+            };
+            format!("(case {id} (kind cmd) (cmd {ctxt}) (syms{decl_txt}) (text {}) (panicloc {}) (classes {}))", quote(&text), quote(&panicloc), classes.join(" "))
+        }
+    }
+}
+
+pub fn run(args: &Args) {
+    let mut rng = Rng::new(args.seed);
+    let mut out = std::io::BufWriter::new(std::fs::File::create(&args.out).expect("out file"));
+    let mut stats = Stats::default();
+    let mut distinct = HashSet::new();
+    let solvers: Vec<String> = args.get("solver").map(|s| s.split(',').map(|x| x.to_string()).collect()).unwrap_or_default();
+    let scratch = format!("{}.scratch", args.out);
+    let mut batch: Vec<(String, SolverBatch)> = solvers.iter().map(|s| (s.clone(), SolverBatch::default())).collect();
+    let mut lines: Vec<String> = vec![];
+    let key_of = |line: &str| line[line.find("(kind").unwrap_or(0)..].to_string();
+    if let Some(path) = args.get("cases-in") {
+        for c in read_cases(path).iter() {
+            let id = c.list()[1].atom().to_string();
+            let mut ctx = Context::default();
+            let case = if c.field("kind").map(|k| k[0].atom() == "cmd").unwrap_or(false) {
+                Case::Cmd(parse_cmd(&mut ctx, &c.field("cmd").unwrap()[0]))
+            } else {
+                let root = build_expr(&mut ctx, &c.field("expr").unwrap()[0]);
+                let envs = c.field("envs").unwrap_or(&[]).iter().map(|e| parse_env(&mut ctx, e)).collect();
+                Case::Expr { root, envs }
+            };
+            let line = run_case(&id, &ctx, &case, &mut stats, &mut batch);
+            distinct.insert(key_of(&line));
+            stats.sample(&line, 3);
+            lines.push(line);
+        }
+    }
+    let n_envs = args.get_u64("envs", 2);
+    for id in 0..args.count {
+        let mut r = rng.fork();
+        let mut ctx = Context::default();
+        let case = {
+            let mut g = Gen::new(&mut ctx, &mut r);
+            g.plain_names = args.get("names").map(|v| v == "plain").unwrap_or(false);
+            if let Some(m) = args.get("max-iw") {
+                g.max_iw = m.parse().unwrap();
+            }
+            let depth = 1 + g.rng.below(5) as u32;
+            let case = if g.rng.chance(1, 4) && args.get("only").map(|v| v != "expr").unwrap_or(true) || args.get("only") == Some("cmd") {
+                Case::Cmd(gen_cmd(&mut g, &mut stats))
+            } else {
+                Case::Expr { root: g.root(depth), envs: vec![] }
+            };
+            for (k, v) in g.ops.iter() {
+                stats.bump_n("ops", k, *v);
+            }
+            case
+        };
+        let case = match case {
+            Case::Expr { root, .. } => {
+                let syms = symbols_of(&ctx, &[root]);
+                let envs = (0..n_envs).map(|_| random_env(&ctx, &mut r, &syms)).collect();
+                Case::Expr { root, envs }
+            }
+            c => c,
+        };
+        let line = run_case(&format!("{id}"), &ctx, &case, &mut stats, &mut batch);
+        distinct.insert(key_of(&line));
+        stats.sample(&line, 3);
+        lines.push(line);
+    }
+    if !batch.is_empty() {
+        let outs: Vec<(String, &SolverBatch, std::collections::HashMap<String, String>)> = batch.iter().map(|(s, b)| (s.clone(), b, b.run(s, &scratch))).collect();
+        for line in lines.iter_mut() {
+            if let Some(p) = line.find("@@SOLVER ") {
+                let rest = &line[p + 9..];
+                let id = rest.split("@@").next().unwrap().to_string();
+                let mut txt = String::new();
+                for (s, b, m) in outs.iter() {
+                    if !b.ids.contains(&id) {
+                        continue;
+                    }
+                    let o = match m.get(&id) {
+                        Some(o) => {
+                            stats.bump("solver_runs", s);
+                            o.clone()
+                        }
+                        None => {
+                            stats.bump("solver_no_output", s);
+                            "(error \"no output for this case\")".to_string()
+                        }
+                    };
+                    txt.push_str(&format!(" ({} {})", quote(s), quote(&o)));
+                }
+                *line = line.replace(&format!("@@SOLVER {id}@@"), &txt);
+            }
+        }
+    }
+    for line in lines.iter() {
+        writeln!(out, "{line}").unwrap();
+    }
+    stats.add("distinct_cases", distinct.len() as u64);
+    stats.write(&args.out);
 }
